@@ -49,6 +49,9 @@ func shapeNode(r *mon.Rng, o ShapeOpts, depth int, isProp bool) *model.Node {
 			if o.OddKeys && r.Chance(1, 8) {
 				key = mon.Pick(r, oddKeys)
 			}
+			if o.OddKeys && i == 0 && r.Chance(1, 4) {
+				key = "" // the empty property name is a name like any other (and required unless marked)
+			}
 			if used[key] {
 				continue
 			}
